@@ -133,7 +133,8 @@ def exA : TxAbs where
   valuesOk := true
   std := true
   sigOk := true
-  highPrio := false
+  inVals := [5000000000]
+  prioSize := 59
   scriptsOk := true
 def exB : TxAbs := { exA with id := 6, ins := [⟨5, 1⟩] }
 def exCb (id : Nat) : TxAbs := { exA with id := id, ins := [], seqs := [], coinbase := true }
@@ -144,7 +145,7 @@ example : Universe exW := by
   · rintro t (rfl | rfl | rfl | rfl) x hx <;> simp [exA, exB, exCb] at hx <;> subst hx <;> decide
   · rintro a b (rfl | rfl | rfl | rfl) (rfl | rfl | rfl | rfl) h <;> first | rfl | (exact absurd h (by decide))
 
-def exPol : Policy := ⟨false, false, 100, 100000, 1000, true, true, 65, 50000⟩
+def exPol : Policy := ⟨false, false, 100, 100000, 1000, true, true, 65, 50000, 57600000⟩
 
 /-- a history satisfying every hypothesis used below (`RunOkM`, hence `RunOk`) -/
 example : RunOkM exW exPol (State.init 1 0)
